@@ -437,6 +437,24 @@ def _binop(op, expression, ref, ycol=None, xcol=None, extra_variants=()):
             lambda x, y, ref=ref: ref(x, y),
         )
     ]
+    # compound operands: a sum on the left, a product on the right (never zero when y is not) - the operator's SQL
+    # formatter has to keep each operand one unit
+    vs.append(
+        Variant(
+            "compound_left",
+            [xcol or F("x"), ycol or F("y"), F("z")],
+            lambda p, op=op: call(op, call("+", c("x"), c("z")), c("y")),
+            lambda x, y, z, ref=ref: ref(x + z, y),
+        )
+    )
+    vs.append(
+        Variant(
+            "compound_right",
+            [xcol or F("x"), ycol or F("y")],
+            lambda p, op=op: call(op, c("x"), call("*", c("y"), c("y"))),
+            lambda x, y, ref=ref: ref(x, y * y),
+        )
+    )
     vs.extend(extra_variants)
     return _row(op, expression, vs)
 
